@@ -48,6 +48,15 @@ def generate(ctx):
                 if o[0] == "w":
                     o[1][1] = rng.choice(["1", "0", "e5", "7", "12", ".5"])
                     o[1][2] = rng.choice(["1", "2", "33", "0"])
+        if rng.random() < 0.15:
+            # names handed over padded with blanks to more than five characters (cut to the five columns, as any long
+            # name): every record still takes the same number of bytes (seed C14-12: the length test made on the STRIPPED
+            # name, the unstripped one written — one record a byte longer, and the reader takes its last digits for the box)
+            ws = [o for o in ops if o[0] == "w"]
+            for o in ws[1:]:
+                if rng.random() < 0.6:
+                    j = rng.choice([1, 2])
+                    o[1][j] = str(o[1][j])[:4] + " " * rng.randint(2, 4)
         yield {"kind": "crash", "ops": ops, "valid": True}
     # outside the quantifier: more records than declared, with names that read as numbers
     for i in range(ctx.n(30, 600)):
@@ -136,7 +145,18 @@ def generate(ctx):
 def _verdict(path, data):
     """open + readlines on the given bytes -> ("E", cls) | ("R", cls, hdr) | ("A", recs, box)"""
     G.write_file(path, data)
-    return _verdict_of(G.read_back(path))
+    v, back = _verdict_of(G.read_back(path))
+    if v[0] == "E":
+        _vcount[0] += 1
+        if _vcount[0] % 3 == 0:
+            # a file GroFile refuses must be refused by the entry points that pick the parser by extension as well
+            alt = G.read_back_dispatch(path)
+            if alt is not None:
+                return ("A", [("accepted-through", alt["via"], alt["records"])], []), back
+    return v, back
+
+
+_vcount = [0]
 
 
 def _verdict_of(back):
